@@ -2,6 +2,8 @@ package main
 
 import (
 	"fmt"
+	"go/token"
+	"go/types"
 	"strings"
 
 	"golang.org/x/tools/go/ssa"
@@ -152,6 +154,7 @@ func c13(c *Ctx) {
 
 	// ---- C13.4 committed DDL is visible to every later transaction: catalog cache coherence ---------------------------
 	c13CatalogCache(c, "C13.4/catalog-cache-coherence")
+	c13CloneIsDeep(c, "C13.4/catalog-clone-is-deep")
 	// ---- C13.5 a transaction sees its own latest write of every (mapped) key ------------------------------------------------
 	c05OwnWrites(c, "C13.5/own-writes")
 
@@ -209,6 +212,58 @@ func c13CatalogCache(c *Ctx, r string) {
 			a := desc(callOf(in).Args[2])
 			c.check(hasFieldSuffix(a, "openCatalogVersion"), r, fnName(f)+":publishes-with-open-version", c.pos(in.Pos()), "publishes with the version observed when the tx opened", "tryPopulateCatalogCache is given "+a)
 		}
+	}
+}
+
+// c13CloneIsDeep: a transaction works on a private clone of the cached catalog and mutates it in place (DDL);
+// the clone must not share any map or slice with its source, or an uncommitted / rolled-back DDL shows through
+// to every other transaction.
+func c13CloneIsDeep(c *Ctx, r string) {
+	n := 0
+	for _, name := range []string{"embedded/sql.cloneTable", "embedded/sql.(*Catalog).Clone"} {
+		f := c.mustFn(r, name)
+		if f == nil {
+			continue
+		}
+		per := map[string]int{}
+		allInstrs(f, false, func(in ssa.Instruction) {
+			st, ok := in.(*ssa.Store)
+			if !ok {
+				return
+			}
+			fa, ok := st.Addr.(*ssa.FieldAddr)
+			if !ok {
+				return
+			}
+			sn := structName(fa.X.Type())
+			if sn != "Table" && sn != "Index" && sn != "Catalog" {
+				return
+			}
+			if _, fresh := fa.X.(*ssa.Alloc); !fresh {
+				if cl, ok := fa.X.(*ssa.Call); !ok || calleeName(&cl.Call) != "embedded/sql.newCatalog" {
+					return
+				}
+			}
+			switch st.Val.Type().Underlying().(type) {
+			case *types.Map, *types.Slice:
+			default:
+				return
+			}
+			n++
+			fname := sn + "." + fieldName(fa.X.Type(), fa.Field)
+			per[fname]++
+			shared := false
+			if ld, ok := st.Val.(*ssa.UnOp); ok && ld.Op == token.MUL {
+				if sfa, ok := ld.X.(*ssa.FieldAddr); ok && sfa.X != fa.X {
+					shared = true
+				}
+			}
+			c.check(!shared, r, fmt.Sprintf("%s:%s#%d", fnName(f), fname, per[fname]), c.pos(st.Pos()), "fresh container ("+desc(st.Val)+")",
+				"the cloned "+sn+" shares its "+fname+" container with the source ("+desc(st.Val)+"): in-place DDL on the clone alters the cached catalog")
+		})
+	}
+	if n < 8 {
+		c.undecided(r, "floor", fmt.Sprintf("%d container fields initialised by the catalog clone found (10 confirmed by hand)", n))
 	}
 }
 
